@@ -59,6 +59,8 @@ static const char *curated_texts[] = {
   "S : 'x' A # p (1) | A # 0 ; A : B C D 'y' # a (0 1 2) ; B : 'x' # b1 () | 'x' 'x' # b2 () ; C : D # 0 | 'c' # c1 () ; D : # d0 () ;",
   // 26 FOLLOW sets that need several propagation rounds against the declaration order
   "S : 'p' Y 'q' # s1 (1) | 'p' Z 'r' # s2 (1) | 'a' # 0 ; Z : W 'x' # z1 (0) | W # 0 ; W : V # 0 ; V : Y # 0 ; Y : 'l' S # y (1) ;",
+  // 27 the same fragment (B) closed by different brackets: equal sets before its last token, different origins
+  "L : L I # l (0 1) | I # 0 ; I : 'k' M # i (1) ; M : '(' B ')' # m1 (1) | '[' B ']' # m2 (1) ; B : 'x' 'y' # b (0 1) ;",
   NULL
 };
 
